@@ -135,6 +135,11 @@ EntryStatus(R, O, e, S) ==
     [] e.k = "nodes" ->
          IF b = "nodes" /\ e.t = NoT
          THEN St(R.nodes \subseteq ToSet(e.v) /\ ToSet(e.v) \subseteq R.nodes \cup R.maybe /\ NoDup(e.v))
+         ELSE IF b = "non_neighbors" /\ R.dir
+         THEN \* networkx reads "neighbours" of a directed node as its successors, dynetx as successors and
+              \* predecessors: the statement does not choose
+              St(NoDup(e.v) /\ (\/ ToSet(e.v) = NodesOf(O) \ (Nbrs(S, e.n) \cup Preds(S, e.n) \cup {e.n})
+                                 \/ ToSet(e.v) = NodesOf(O) \ (Nbrs(S, e.n) \cup {e.n})))
          ELSE St(ToSet(e.v) = ExpNodes(R, O, e, S) /\ (b = "all_neighbors" \/ NoDup(e.v)))
     [] e.k = "attrs" /\ b = "get_node_attributes" ->
          \* dn.get_node_attributes(G, name): exactly the nodes that carry the attribute, with its value
